@@ -400,6 +400,9 @@ func (f *g2lFn) ret(x *ast.ReturnStmt, ind int) []string {
 	if f.fuelChk {
 		return []string{g2lInd(ind) + "return true"}
 	}
+	if out, ok := f.retErrFn(x, ind); ok { // go2lean_errfn.go: return nil / return E of a function whose result is an error
+		return out
+	}
 	switch len(x.Results) {
 	case 0:
 		if out, ok := f.voidReturn(ind); ok { // go2lean_own.go
@@ -941,14 +944,19 @@ func (g *g2l) translateFunc(key string) (u *g2lUnit) {
 	params = append(g.ctxParams(), params...)
 	remut = append(remut, f.namedResultDecls(fd)...) // go2lean_codec.go
 	var resT string
-	if void {
+	errFn := g.errFnSig(sig) && len(g.inOutFor(key)) > 0 // go2lean_errfn.go: Except-valued, returns its in-out parameters
+	if void || errFn {
 		resT = ""
 	} else if sig.Results().Len() == 1 {
 		resT = f.lean(sig.Results().At(0).Type())
 	} else {
 		resT = f.lean(sig.Results())
 	}
-	resT = f.inOutResult(resT, sig.Results().Len())
+	if errFn {
+		resT = f.errResult(f.inOutResult(resT, 0))
+	} else {
+		resT = f.inOutResult(resT, sig.Results().Len())
+	}
 	if envVoid { // go2lean_env.go: the end of the body returns the in-out parameters
 		resT = f.voidResult()
 		if !g2lTerminates(fd.Body.List) {
@@ -967,7 +975,7 @@ func (g *g2l) translateFunc(key string) (u *g2lUnit) {
 		head = fmt.Sprintf("def %s : %s :=", u.lean, resT)
 	}
 	// single return statement: a plain term
-	if rs, ok := fd.Body.List[0].(*ast.ReturnStmt); ok && len(fd.Body.List) == 1 && len(remut) == 0 {
+	if rs, ok := fd.Body.List[0].(*ast.ReturnStmt); ok && len(fd.Body.List) == 1 && len(remut) == 0 && !errFn {
 		line := f.ret(rs, 1)[0]
 		u.text = head + "\n  " + strings.TrimPrefix(strings.TrimSpace(line), "return ") + "\n"
 	} else {
@@ -986,7 +994,11 @@ func (g *g2l) translateFunc(key string) (u *g2lUnit) {
 		if effectOnly {
 			lines = append(lines, f.effectOnlyReturn()) // go2lean_buffer.go
 		}
-		u.text = head + " Id.run do\n" + strings.Join(lines, "\n") + "\n"
+		if errFn { // go2lean_errfn.go: in the monad Except ErrType
+			u.text = head + " do\n" + strings.Join(lines, "\n") + "\n"
+		} else {
+			u.text = head + " Id.run do\n" + strings.Join(lines, "\n") + "\n"
+		}
 	}
 	if f.loops != len(f.fuel) {
 		f.fail("%d fuel terms configured, %d loops found", len(f.fuel), f.loops)
